@@ -5,6 +5,7 @@ from vlib import Run, Infra, tla_set, cfg_text, validate_traces, log
 
 IDS = ["_IK_p_s_d", "_IK_p_s_d_us-west-2"]           # one id is a proper prefix of the other (region-suffixed form)
 STAMPS_A = [5, 40, 300]                                # decimal-string order is the reverse of numeric order
+STAMPS_C = [-60, 0, 7]                                 # boundary: a creation time before / at the epoch is a legal int64 key like any other
 STAMPS_B = [999999999, 1000000000, 1700000000]         # realistic epoch seconds; "999999999" sorts last as a string
 INVS = ["ReplicaBehind", "ReadsPrimary", "LatestIsGreatest", "ReadYourWrites"]
 PROPS = ["InsertOnly", "StoreContract", "ReadsArePure"]
@@ -20,7 +21,9 @@ ASSUME = [
 
 
 def consts(ids, stamps, variants="{}", maxops=0, sources=("primary",)):
-    return {"Ids": tla_set(ids), "Stamps": tla_set(stamps), "Variants": variants if variants.startswith("{") else "<- " + variants,
+    pos = sorted(int(s) for s in stamps if int(s) >= 0)
+    neg = sorted(-int(s) for s in stamps if int(s) < 0)
+    return {"Ids": tla_set(ids), "PosStamps": tla_set(pos), "NegStamps": tla_set(neg), "Variants": variants if variants.startswith("{") else "<- " + variants,
             "ReadSources": tla_set(list(sources)), "MaxOps": maxops}
 
 
@@ -46,12 +49,14 @@ def generate(run, q):
         fams.append(("t-v2-len4", dict(ids=IDS, stamps=STAMPS_A, variants="Variants2", maxops=4), "trans", "GenViewT", None))
         fams.append(("t-v4-len2", dict(ids=IDS, stamps=STAMPS_B, variants="Variants4", maxops=2), "trans", "GenView", None))
         fams.append(("s-v4-len6", dict(ids=IDS, stamps=STAMPS_A, variants="Variants4", maxops=6), "seq", None, 50))
+        fams.append(("t-v2-len3c", dict(ids=IDS, stamps=STAMPS_C, variants="Variants2", maxops=3), "trans", "GenViewT", None))
     else:
         fams.append(("t-v3-len5", dict(ids=IDS, stamps=STAMPS_A, variants="Variants3", maxops=5), "trans", "GenViewT", None))
         fams.append(("t-v4-len3", dict(ids=IDS, stamps=STAMPS_B, variants="Variants4", maxops=3), "trans", "GenView", None))
         fams.append(("t-v2-len4b", dict(ids=IDS, stamps=STAMPS_B, variants="Variants2", maxops=4), "trans", "GenView", None))
         fams.append(("s-v4-len6", dict(ids=IDS, stamps=STAMPS_A, variants="Variants4", maxops=6), "seq", None, 250))
         fams.append(("s-v4-len9", dict(ids=IDS, stamps=STAMPS_B, variants="Variants4", maxops=9), "seq", None, 100))
+        fams.append(("t-v2-len4c", dict(ids=IDS, stamps=STAMPS_C, variants="Variants2", maxops=4), "trans", "GenViewT", None))
     chunks, cur, n_in_cur, total, per = [], None, 0, 0, {}
     for label, c, mode, view, sim in fams:
         k = consts(**c)
